@@ -1,0 +1,559 @@
+//! Verification hook H3 (only compiled with `--cfg redb_verif`): plain-data, read-only snapshots of
+//! the page-ownership bookkeeping, and enumeration of the pages reachable from a root through
+//! redb's own walkers. Nothing in here changes behaviour of the crate.
+//!
+//! Entry points (all `verif_*`, all `&self`):
+//! * `Database::verif_snapshot()`            -> `VDbSnapshot`
+//! * `WriteTransaction::verif_snapshot()`    -> `VTxnSnapshot`
+//! * `Database::verif_reach(data, system)` / `WriteTransaction::verif_reach(data, system)`
+//!   -> `VReach` (pages reachable from committed roots, freed / allocated tables' contents, savepoint records)
+//! * `WriteTransaction::verif_reach_current()` -> `VReach` for the in-progress (uncommitted) roots,
+//!   including staged table roots (no table handle may be open)
+//! * `Database::verif_read_page(page)` / `WriteTransaction::verif_read_page(page)` -> bytes of a page
+//!   (sees buffered, not yet flushed pages)
+//! * `ReadTransaction::verif_root()`, `Savepoint::verif_record()`
+
+use crate::db::TransactionGuard;
+use crate::transaction_tracker::SavepointId;
+use crate::transactions::{
+    ALLOCATOR_STATE_TABLE_NAME, AllocatorStateKey, DATA_ALLOCATED_TABLE, DATA_FREED_TABLE,
+    PageList, SAVEPOINT_TABLE, SYSTEM_FREED_TABLE, SystemTableDefinition,
+    TransactionIdWithPagination,
+};
+use crate::tree_store::page_store::base::{PageHint, PageNumber};
+use crate::tree_store::page_store::header::TransactionHeader;
+use crate::tree_store::page_store::page_manager::{PageResolver, TransactionalMemory};
+use crate::tree_store::page_store::savepoint::SerializedSavepoint;
+use crate::tree_store::{
+    Btree, BtreeHeader, InternalTableDefinition, Page, TableTree, TableTreeMut, TableType,
+};
+use crate::{Key, Result, StorageError, TableHandle, Value};
+use alloc::string::{String, ToString};
+use alloc::sync::Arc;
+use alloc::vec;
+use alloc::vec::Vec;
+use core::ops::RangeFull;
+
+use super::VLayout;
+
+/// A page number: `2^order` consecutive order-0 pages starting at order-0 index `index << order`
+/// of region `region` (same triple as redb's `PageNumber`).
+#[derive(Clone, Copy, Debug, PartialEq, Eq, PartialOrd, Ord, Hash)]
+pub struct VPage {
+    pub region: u32,
+    pub index: u32,
+    pub order: u8,
+}
+
+impl VPage {
+    pub(crate) fn of(p: PageNumber) -> Self {
+        VPage {
+            region: p.region,
+            index: p.page_index,
+            order: p.page_order,
+        }
+    }
+
+    pub(crate) fn page_number(self) -> PageNumber {
+        PageNumber::new(self.region, self.index, self.order)
+    }
+
+    /// the order-0 page indices (within the region) covered by this page
+    pub fn order0_range(self) -> core::ops::Range<u32> {
+        let n = 1u32 << self.order;
+        (self.index * n)..((self.index + 1) * n)
+    }
+}
+
+pub(crate) fn vpages(pages: impl IntoIterator<Item = PageNumber>) -> Vec<VPage> {
+    let mut v: Vec<VPage> = pages.into_iter().map(VPage::of).collect();
+    v.sort();
+    v
+}
+
+/// A b-tree root as stored in a commit slot / table definition (`BtreeHeader`)
+#[derive(Clone, Copy, Debug, PartialEq, Eq, PartialOrd, Ord, Hash)]
+pub struct VRoot {
+    pub root: VPage,
+    pub checksum: u128,
+    pub length: u64,
+}
+
+impl VRoot {
+    pub(crate) fn of(h: BtreeHeader) -> Self {
+        VRoot {
+            root: VPage::of(h.root),
+            checksum: h.checksum,
+            length: h.length,
+        }
+    }
+
+    pub(crate) fn opt(h: Option<BtreeHeader>) -> Option<Self> {
+        h.map(Self::of)
+    }
+
+    pub(crate) fn header(self) -> BtreeHeader {
+        BtreeHeader::new(self.root.page_number(), self.checksum, self.length)
+    }
+}
+
+/// One commit slot of the in-memory database header
+#[derive(Clone, Debug, PartialEq, Eq)]
+pub struct VSlot {
+    pub transaction_id: u64,
+    pub version: u8,
+    pub data_root: Option<VRoot>,
+    pub system_root: Option<VRoot>,
+}
+
+impl VSlot {
+    pub(in crate::tree_store::page_store) fn of(t: &TransactionHeader) -> Self {
+        VSlot {
+            transaction_id: t.transaction_id.raw_id(),
+            version: t.version,
+            data_root: VRoot::opt(t.user_root),
+            system_root: VRoot::opt(t.system_root),
+        }
+    }
+}
+
+/// State of one region's buddy allocator
+#[derive(Clone, Debug, PartialEq, Eq)]
+pub struct VRegion {
+    /// number of order-0 pages the allocator currently manages
+    pub num_pages: u32,
+    pub max_order: u8,
+    /// free blocks as (index at that order, order); everything else in `0..num_pages` is allocated
+    pub free_blocks: Vec<(u32, u8)>,
+    /// the allocated order-0 page indices (complement of `free_blocks` in `0..num_pages`), ascending
+    pub allocated_order0: Vec<u32>,
+    /// `BuddyAllocator::to_vec()`
+    pub bytes: Vec<u8>,
+}
+
+/// `UnpersistedState` of `TransactionalMemory`, field for field (hash sets sorted)
+#[derive(Clone, Debug, PartialEq, Eq, Default)]
+pub struct VUnpersisted {
+    pub pages: Vec<VPage>,
+    /// transaction id -> data-tree pages it allocated (in-memory stand-in for DATA_ALLOCATED_TABLE)
+    pub allocations: Vec<(u64, Vec<VPage>)>,
+    /// reverse index of `allocations`
+    pub allocation_txn: Vec<(VPage, u64)>,
+    /// transaction id -> data-tree pages it freed, in recorded order (stand-in for DATA_FREED_TABLE)
+    pub data_freed: Vec<(u64, Vec<VPage>)>,
+    pub post_commit_allocations: Vec<VPage>,
+}
+
+/// `TransactionalMemory` snapshot
+#[derive(Clone, Debug, PartialEq, Eq)]
+pub struct VMem {
+    pub page_size: u32,
+    pub layout: VLayout,
+    /// false after `invalidate_allocator_state()`; then `regions` is empty
+    pub allocators_loaded: bool,
+    pub regions: Vec<VRegion>,
+    /// `RegionTracker::to_vec()` (optimistic cache, not part of the ownership state)
+    pub region_tracker_bytes: Vec<u8>,
+    /// the durable slot (what a crash falls back to)
+    pub primary: VSlot,
+    pub secondary: VSlot,
+    /// true when a non-durable commit is pending: readers / writers start from `secondary`
+    pub read_from_secondary: bool,
+    pub header_two_phase_commit: bool,
+    pub header_recovery_required: bool,
+    pub unpersisted: VUnpersisted,
+    pub needs_repair: bool,
+    pub storage_failure: bool,
+    /// `count_allocated_pages()` (0 when the allocators are not loaded)
+    pub allocated_page_count: u64,
+    /// exact page numbers of the debug-build `allocated_pages` set; `None` without debug assertions
+    pub debug_allocated: Option<Vec<VPage>>,
+}
+
+impl VMem {
+    /// slot read by new transactions
+    pub fn latest(&self) -> &VSlot {
+        if self.read_from_secondary {
+            &self.secondary
+        } else {
+            &self.primary
+        }
+    }
+
+    pub fn durable(&self) -> &VSlot {
+        &self.primary
+    }
+
+    /// all allocated order-0 pages as (region, order-0 index), ascending
+    pub fn allocated_order0(&self) -> Vec<(u32, u32)> {
+        let mut out = vec![];
+        for (r, region) in self.regions.iter().enumerate() {
+            for i in &region.allocated_order0 {
+                out.push((u32::try_from(r).unwrap(), *i));
+            }
+        }
+        out
+    }
+}
+
+/// `TransactionTracker` state, field for field (maps as sorted vectors)
+#[derive(Clone, Debug, PartialEq, Eq)]
+pub struct VTracker {
+    pub next_savepoint_id: u64,
+    /// transaction id -> reference count
+    pub live_read_transactions: Vec<(u64, u64)>,
+    pub next_transaction_id: u64,
+    pub live_write_transaction: Option<u64>,
+    /// savepoint id -> transaction id
+    pub valid_savepoints: Vec<(u64, u64)>,
+    pub persistent_savepoints: Vec<u64>,
+    /// non-durable transaction id -> durable ancestor
+    pub pending_non_durable_commits: Vec<(u64, u64)>,
+    pub unprocessed_freed_non_durable_commits: Vec<u64>,
+    pub deferred_close: bool,
+}
+
+#[derive(Clone, Debug, PartialEq, Eq)]
+pub struct VDbSnapshot {
+    pub mem: VMem,
+    pub tracker: VTracker,
+}
+
+#[derive(Clone, Copy, Debug, PartialEq, Eq)]
+pub enum VPageTrackerState {
+    Ignore,
+    Track,
+    Closed,
+}
+
+/// The write transaction's `PageTracker` (data-tree allocations, kept only while a savepoint may need them)
+#[derive(Clone, Debug, PartialEq, Eq)]
+pub struct VPageTracker {
+    pub state: VPageTrackerState,
+    pub tracking_flag: bool,
+    pub pages: Vec<VPage>,
+}
+
+/// `SavepointTransactionState`: (savepoint id, transaction id) pairs
+#[derive(Clone, Debug, PartialEq, Eq, Default)]
+pub struct VSavepointTxnState {
+    pub created_persistent: Vec<(u64, u64)>,
+    pub deleted_persistent: Vec<(u64, u64)>,
+    pub invalidated: Vec<u64>,
+}
+
+/// (table name, staged root, staged length, dirty checksums)
+pub type VPendingUpdate = (String, Option<VRoot>, u64, bool);
+
+#[derive(Clone, Debug, PartialEq, Eq)]
+pub struct VTxnSnapshot {
+    pub db: VDbSnapshot,
+    pub transaction_id: u64,
+    pub completed: bool,
+    pub dirty: bool,
+    pub poisoned: bool,
+    pub durability_immediate: bool,
+    pub two_phase_commit: bool,
+    pub quick_repair: bool,
+    pub post_commit_free_enabled: bool,
+    pub restored_transaction: Option<u64>,
+    pub savepoint_state: VSavepointTxnState,
+    /// `PageAllocator::allocated_since_commit` (every page this transaction allocated and still holds)
+    pub allocated_since_commit: Vec<VPage>,
+    /// committed data-tree pages unlinked by this transaction, in queue order
+    pub data_freed_pages: Vec<VPage>,
+    /// committed system-tree pages unlinked by this transaction, in queue order
+    pub system_freed_pages: Vec<VPage>,
+    pub page_tracker: VPageTracker,
+    /// names of data tables with a live handle (their current roots are not visible to the snapshot)
+    pub open_tables: Vec<String>,
+    /// root of the (possibly uncommitted) data master tree, without staged table roots
+    pub data_master_root: Option<VRoot>,
+    pub system_master_root: Option<VRoot>,
+    pub data_pending_updates: Vec<VPendingUpdate>,
+    pub system_pending_updates: Vec<VPendingUpdate>,
+}
+
+/// One record of DATA_FREED / SYSTEM_FREED / DATA_ALLOCATED
+#[derive(Clone, Debug, PartialEq, Eq)]
+pub struct VPageList {
+    pub transaction_id: u64,
+    pub pagination_id: u64,
+    /// in stored order
+    pub pages: Vec<VPage>,
+}
+
+#[derive(Clone, Debug, PartialEq, Eq)]
+pub struct VSavepointRecord {
+    pub id: u64,
+    pub transaction_id: u64,
+    pub version: u8,
+    pub data_root: Option<VRoot>,
+}
+
+#[derive(Clone, Debug, PartialEq, Eq)]
+pub struct VTableInfo {
+    pub name: String,
+    pub multimap: bool,
+    pub root: Option<VRoot>,
+    pub length: u64,
+    /// pages of this table's tree (incl. multimap subtrees), in walk order
+    pub pages: Vec<VPage>,
+}
+
+/// Everything reachable from a (data root, system root) pair, through redb's own walkers
+#[derive(Clone, Debug, PartialEq, Eq, Default)]
+pub struct VReach {
+    /// pages of the data master tree itself, in walk order
+    pub data_master_pages: Vec<VPage>,
+    pub data_tables: Vec<VTableInfo>,
+    /// all data-tree pages (master + every table), sorted; duplicates are kept (a duplicate is a defect)
+    pub data_pages: Vec<VPage>,
+    pub system_master_pages: Vec<VPage>,
+    pub system_tables: Vec<VTableInfo>,
+    pub system_pages: Vec<VPage>,
+    pub data_freed: Vec<VPageList>,
+    pub system_freed: Vec<VPageList>,
+    pub data_allocated: Vec<VPageList>,
+    pub persistent_savepoints: Vec<VSavepointRecord>,
+    pub next_savepoint_id: Option<u64>,
+    /// transaction id stored in the allocator-state table, if that table exists
+    pub allocator_state_transaction_id: Option<u64>,
+}
+
+fn corrupted(e: crate::TableError, what: &str) -> StorageError {
+    e.into_storage_error_or_corrupted(what)
+}
+
+fn walk_definitions(
+    mem: &Arc<TransactionalMemory>,
+    master_pages: Vec<VPage>,
+    definitions: Vec<(String, InternalTableDefinition)>,
+) -> Result<(Vec<VPage>, Vec<VTableInfo>, Vec<VPage>)> {
+    let resolver = PageResolver::new(mem.clone());
+    let mut tables = vec![];
+    for (name, definition) in definitions {
+        let (multimap, table_root, length) = match definition {
+            InternalTableDefinition::Normal {
+                table_root,
+                table_length,
+                ..
+            } => (false, table_root, table_length),
+            InternalTableDefinition::Multimap {
+                table_root,
+                table_length,
+                ..
+            } => (true, table_root, table_length),
+        };
+        let mut pages = vec![];
+        definition.visit_all_pages(resolver.clone(), PageHint::None, |path| {
+            pages.push(VPage::of(path.page_number()));
+            Ok(())
+        })?;
+        tables.push(VTableInfo {
+            name,
+            multimap,
+            root: VRoot::opt(table_root),
+            length,
+            pages,
+        });
+    }
+    let mut all = master_pages.clone();
+    for t in &tables {
+        all.extend(t.pages.iter().copied());
+    }
+    all.sort();
+    Ok((master_pages, tables, all))
+}
+
+fn walk_tree(
+    mem: &Arc<TransactionalMemory>,
+    root: Option<BtreeHeader>,
+) -> Result<(Vec<VPage>, Vec<VTableInfo>, Vec<VPage>)> {
+    let resolver = PageResolver::new(mem.clone());
+    let guard = Arc::new(TransactionGuard::untracked());
+    let master: Btree<&str, InternalTableDefinition> =
+        Btree::new(root, PageHint::None, guard, resolver)?;
+    let mut master_pages = vec![];
+    master.visit_all_pages(|path| {
+        master_pages.push(VPage::of(path.page_number()));
+        Ok(())
+    })?;
+    let mut definitions = vec![];
+    for entry in master.range::<RangeFull, &str>(&(..))? {
+        let entry = entry?;
+        definitions.push((entry.key().to_string(), entry.value()));
+    }
+    walk_definitions(mem, master_pages, definitions)
+}
+
+/// Where table definitions are looked up: a committed system tree, or the live (uncommitted) one
+/// of a write transaction, whose staged table roots must be applied
+pub(crate) enum SystemLookup<'a> {
+    Committed(&'a TableTree),
+    Live(&'a TableTreeMut),
+}
+
+impl SystemLookup<'_> {
+    fn get<K: Key + 'static, V: Value + 'static>(
+        &self,
+        name: &str,
+    ) -> core::result::Result<Option<InternalTableDefinition>, crate::TableError> {
+        match self {
+            SystemLookup::Committed(t) => t.get_table::<K, V>(name, TableType::Normal),
+            SystemLookup::Live(t) => t.get_table::<K, V>(name, TableType::Normal),
+        }
+    }
+}
+
+fn system_table_root<K: Key + 'static, V: Value + 'static>(
+    tree: &SystemLookup,
+    definition: SystemTableDefinition<K, V>,
+) -> Result<Option<Option<BtreeHeader>>> {
+    match tree
+        .get::<K, V>(definition.name())
+        .map_err(|e| corrupted(e, "verif: system table corrupted"))?
+    {
+        Some(InternalTableDefinition::Normal { table_root, .. }) => Ok(Some(table_root)),
+        Some(InternalTableDefinition::Multimap { .. }) => unreachable!(),
+        None => Ok(None),
+    }
+}
+
+fn read_page_lists(
+    mem: &Arc<TransactionalMemory>,
+    tree: &SystemLookup,
+    definition: SystemTableDefinition<TransactionIdWithPagination, PageList<'static>>,
+) -> Result<Vec<VPageList>> {
+    let Some(root) = system_table_root(tree, definition)? else {
+        return Ok(vec![]);
+    };
+    let table: Btree<TransactionIdWithPagination, PageList<'static>> = Btree::new(
+        root,
+        PageHint::None,
+        Arc::new(TransactionGuard::untracked()),
+        PageResolver::new(mem.clone()),
+    )?;
+    let mut out = vec![];
+    for entry in table.range::<RangeFull, TransactionIdWithPagination>(&(..))? {
+        let entry = entry?;
+        let key = entry.key();
+        let list = entry.value();
+        let pages = (0..list.len()).map(|i| VPage::of(list.get(i))).collect();
+        out.push(VPageList {
+            transaction_id: key.transaction_id,
+            pagination_id: key.pagination_id,
+            pages,
+        });
+    }
+    Ok(out)
+}
+
+/// Pages reachable from the given roots, plus the typed contents of the bookkeeping system tables
+/// found under `system_root`.
+pub(crate) fn reach(
+    mem: &Arc<TransactionalMemory>,
+    data_root: Option<BtreeHeader>,
+    system_root: Option<BtreeHeader>,
+) -> Result<VReach> {
+    let data = walk_tree(mem, data_root)?;
+    let system = walk_tree(mem, system_root)?;
+    let system_tree = TableTree::new(
+        system_root,
+        PageHint::None,
+        Arc::new(TransactionGuard::untracked()),
+        PageResolver::new(mem.clone()),
+    )?;
+    reach_finish(mem, data, system, &SystemLookup::Committed(&system_tree))
+}
+
+/// Same for the live trees of a write transaction (staged table roots applied)
+pub(crate) fn reach_live(
+    mem: &Arc<TransactionalMemory>,
+    data_tree: &TableTreeMut,
+    system_tree: &TableTreeMut,
+) -> Result<VReach> {
+    let (master, definitions) = data_tree.verif_definitions()?;
+    let data = walk_definitions(mem, master.into_iter().map(VPage::of).collect(), definitions)?;
+    let (master, definitions) = system_tree.verif_definitions()?;
+    let system = walk_definitions(mem, master.into_iter().map(VPage::of).collect(), definitions)?;
+    reach_finish(mem, data, system, &SystemLookup::Live(system_tree))
+}
+
+type Walk = (Vec<VPage>, Vec<VTableInfo>, Vec<VPage>);
+
+fn reach_finish(
+    mem: &Arc<TransactionalMemory>,
+    data: Walk,
+    system: Walk,
+    system_tree: &SystemLookup,
+) -> Result<VReach> {
+    let (data_master_pages, data_tables, data_pages) = data;
+    let (system_master_pages, system_tables, system_pages) = system;
+    let resolver = PageResolver::new(mem.clone());
+    let guard = Arc::new(TransactionGuard::untracked());
+
+    let data_freed = read_page_lists(mem, system_tree, DATA_FREED_TABLE)?;
+    let system_freed = read_page_lists(mem, system_tree, SYSTEM_FREED_TABLE)?;
+    let data_allocated = read_page_lists(mem, system_tree, DATA_ALLOCATED_TABLE)?;
+
+    let mut persistent_savepoints = vec![];
+    if let Some(root) = system_table_root(system_tree, SAVEPOINT_TABLE)? {
+        let table: Btree<SavepointId, SerializedSavepoint> =
+            Btree::new(root, PageHint::None, guard.clone(), resolver.clone())?;
+        // a throw-away tracker: the decoded Savepoint is not ephemeral, so dropping it touches nothing
+        let tracker = Arc::new(crate::transaction_tracker::TransactionTracker::new(
+            crate::transaction_tracker::TransactionId::new(0),
+        ));
+        for entry in table.range::<RangeFull, SavepointId>(&(..))? {
+            let entry = entry?;
+            let sp = entry.value().to_savepoint(tracker.clone())?;
+            persistent_savepoints.push(sp.verif_record());
+        }
+    }
+
+    let next_def: SystemTableDefinition<(), SavepointId> =
+        SystemTableDefinition::new("next_savepoint_id");
+    let mut next_savepoint_id = None;
+    if let Some(root) = system_table_root(system_tree, next_def)? {
+        let table: Btree<(), SavepointId> =
+            Btree::new(root, PageHint::None, guard.clone(), resolver.clone())?;
+        next_savepoint_id = table.get(&())?.map(|x| x.value().0);
+    }
+
+    let mut allocator_state_transaction_id = None;
+    if let Some(InternalTableDefinition::Normal { table_root, .. }) = system_tree
+        .get::<AllocatorStateKey, &[u8]>(ALLOCATOR_STATE_TABLE_NAME)
+        .map_err(|e| corrupted(e, "verif: allocator state table corrupted"))?
+    {
+        let table: Btree<AllocatorStateKey, &'static [u8]> =
+            Btree::new(table_root, PageHint::None, guard, resolver)?;
+        if let Some(v) = table.get(&AllocatorStateKey::TransactionId)? {
+            allocator_state_transaction_id =
+                Some(u64::from_le_bytes(v.value().try_into().unwrap()));
+        }
+    }
+
+    Ok(VReach {
+        data_master_pages,
+        data_tables,
+        data_pages,
+        system_master_pages,
+        system_tables,
+        system_pages,
+        data_freed,
+        system_freed,
+        data_allocated,
+        persistent_savepoints,
+        next_savepoint_id,
+        allocator_state_transaction_id,
+    })
+}
+
+/// Bytes of a page as the engine currently sees it (write buffer, cache, then file)
+pub(crate) fn read_page(mem: &Arc<TransactionalMemory>, page: VPage) -> Result<Vec<u8>> {
+    Ok(mem
+        .get_page(page.page_number(), PageHint::None)?
+        .memory()
+        .to_vec())
+}
